@@ -140,11 +140,102 @@ def replay_line(line) -> list[tuple[str, str]]:
             check_tensor(t2, line, line["fmt2"], line["conv"], line["convitems"], line["dok"], name + ".to_format")
             t3 = pickle.loads(pickle.dumps(t))
             check_tensor(t3, line, line["fmt"], line["packed"], line["items"], line["dok"], name + ".pickle")
+            # read-back through an iterator taken from a TEMPORARY tensor (nothing else references it), consumed after
+            # other tensors of the same size were built: the entries must still be the ones supplied
+            want_items_ = sorted((tuple(c), fl(v)) for c, v in line["items"])
+            for tag, mk in (("", build), (".to_format", lambda: build().to_format(f1)), (".pickle", lambda: pickle.loads(pickle.dumps(t)))):
+                it = mk().items()
+                junk = [Tensor.from_aos(coords, [v + 1000.0 for v in values], dimensions=dims, format=f1) for _ in range(3)]
+                got_ = sorted((tuple(c), v) for c, v in it)
+                del junk
+                nz_ = sorted((c, v) for c, v in got_ if v != 0)
+                want_nz_ = sorted((tuple(c), fl(v)) for c, v in line["dok"])
+                expect(nz_ == want_nz_, f"{name}{tag}.items-of-temporary: non-zero items {nz_} != {want_nz_}")
+                if tag != ".to_format":   # (to_format goes through to_dok: explicit zeros are gone, dense fill differs)
+                    expect(got_ == want_items_, f"{name}{tag}.items-of-temporary: items {got_} != {want_items_}")
         except Mismatch as e:
             bad.append((str(e).split(":")[1].strip().split(" ")[0], str(e)))
         except Exception as e:  # noqa: BLE001
             bad.append(("raised-" + type(e).__name__, f"{name}: {type(e).__name__}: {e}"))
     return bad
+
+
+def _journal_worker(lines, idxs, conn):
+    for i in idxs:
+        conn.send(("start", i, None))
+        try:
+            r = replay_line(lines[i])
+        except BaseException as e:  # noqa: BLE001
+            r = [("raised-" + type(e).__name__, f"replay raised {type(e).__name__}: {e}")]
+        conn.send(("done", i, r))
+    conn.send(("end", -1, None))
+    conn.close()
+
+
+MAX_CULPRITS = 25
+
+
+def replay_all(lines: list) -> list:
+    """replay_line for every line in sacrificial processes that journal their progress: a worker that dies (segfault
+    on freed or out-of-range memory) or hangs is attributed to the request in flight, which is reported, and the rest
+    of its share continues in a fresh worker.  After MAX_CULPRITS such requests the remaining ones are left unreplayed."""
+    import multiprocessing
+    import threading
+
+    ctx = multiprocessing.get_context("fork")
+    results: list = [None] * len(lines)
+    culprits = []
+    lock = threading.Lock()
+    NW = 16
+
+    def serve(share):
+        todo = list(share)
+        while todo:
+            with lock:
+                if len(culprits) >= MAX_CULPRITS:
+                    return
+            parent, child = ctx.Pipe(duplex=False)
+            pr = ctx.Process(target=_journal_worker, args=(lines, todo, child), daemon=True)
+            pr.start()
+            child.close()
+            current, finished = None, False
+            try:
+                while True:
+                    if not parent.poll(30):
+                        break  # hung
+                    try:
+                        kind, i, r = parent.recv()
+                    except (EOFError, OSError):
+                        break  # died
+                    if kind == "start":
+                        current = i
+                    elif kind == "done":
+                        results[i] = r
+                        current = None
+                    else:
+                        finished = True
+                        break
+            finally:
+                try:
+                    pr.kill()
+                except Exception:  # noqa: BLE001
+                    pass
+                pr.join(5)
+                parent.close()
+            if finished:
+                return
+            if current is not None:
+                results[current] = [("process-died-or-hung", "the replay of this request crashed or hung its process")]
+                with lock:
+                    culprits.append(current)
+            todo = [i for i in todo if results[i] is None]
+
+    threads = [threading.Thread(target=serve, args=(list(range(w, len(lines), NW)),)) for w in range(NW)]
+    for t in threads:
+        t.start()
+    for t in threads:
+        t.join()
+    return [r if r is not None else [] for r in results]
 
 
 def run(tier, seed):
@@ -175,10 +266,7 @@ def run(tier, seed):
             if k not in seen_lines:
                 seen_lines.add(k)
                 uniq.append(line)
-        import multiprocessing
-
-        with multiprocessing.Pool(16) as mp:
-            results = mp.map(replay_line, uniq, chunksize=200)
+        results = replay_all(uniq)
         for line, res in zip(uniq, results):
             n_replayed += 1
             if not line["reject"] and len(line["dok"]) > 0:
